@@ -81,20 +81,30 @@ def sync_lock(group):
 MODULE_OF = {}
 
 
+GROUP_OF = {}
+
+
+def parts_of(spec):
+    """(group, files) pairs a property's harnesses live in (usually one)."""
+    return [(spec["group"], spec["files"])] + list(spec.get("extra_groups", []))
+
+
 def harness_names(prop, tier):
-    """Harness functions are found by name in the property's source file:
+    """Harness functions are found by name in the property's source files:
     <id>_q_* run in both tiers, <id>_t_* only in the thorough tier."""
     spec = registry.PROPS[prop]
     pid = prop.lower()
     names = []
-    for f in spec["files"]:
-        text = open(os.path.join(VERIF, "harness", spec["group"], "src", f)).read()
+    for group, files in parts_of(spec):
+      for f in files:
+        text = open(os.path.join(VERIF, "harness", group, "src", f)).read()
         text = re.sub(r"//[^\n]*", "", text)  # names mentioned in comments are not harnesses
         for m in re.finditer(r"\b(%s_[qt]_\w+)\b" % pid, text):
             n = m.group(1)
             if n not in names:
                 names.append(n)
                 MODULE_OF[n] = f[:-3].replace("/", "::")
+                GROUP_OF[n] = group
     if tier == "quick":
         names = [n for n in names if n.startswith(pid + "_q_")]
     return names
@@ -300,15 +310,19 @@ def main(argv):
     logdir = os.path.join(LOGS, prop, tier)
     shutil.rmtree(logdir, ignore_errors=True)
     os.makedirs(logdir, exist_ok=True)
-    sync_lock(group)
     t0 = time.time()
 
     # 1. compile + codegen every harness of this property from /repo's current tree
-    cg_cmd = cargo_kani_base(group, feats, extra=False) + ["--only-codegen"]
-    cg_log = os.path.join(logdir, "_codegen.log")
-    with open(cg_log, "w") as out:
-        rc = subprocess.call(cg_cmd, cwd=os.path.join(HARNESS, group), env=env(),
-                             stdout=out, stderr=subprocess.STDOUT)
+    rc = 0
+    for g in sorted({GROUP_OF[n] for n in names} or {group}):
+        sync_lock(g)
+        cg_cmd = cargo_kani_base(g, feats, extra=False) + ["--only-codegen"]
+        cg_log = os.path.join(logdir, "_codegen_%s.log" % g)
+        with open(cg_log, "w") as out:
+            rc = subprocess.call(cg_cmd, cwd=os.path.join(HARNESS, g), env=env(),
+                                 stdout=out, stderr=subprocess.STDOUT)
+        if rc != 0:
+            break
     codegen_s = round(time.time() - t0, 1)
     results = []
     if rc != 0:
@@ -321,7 +335,7 @@ def main(argv):
 
     # 2. one CBMC run per harness, in parallel
     with cf.ThreadPoolExecutor(max_workers=caps["workers"]) as ex:
-        futs = {ex.submit(run_harness, group, feats, n, caps, logdir): n for n in names}
+        futs = {ex.submit(run_harness, GROUP_OF.get(n, group), feats, n, caps, logdir): n for n in names}
         for fu in cf.as_completed(futs):
             r = fu.result()
             results.append(r)
@@ -359,7 +373,7 @@ def main(argv):
     MAX_REPLAYS = 4
     to_replay, rest = violations[:MAX_REPLAYS], violations[MAX_REPLAYS:]
     with cf.ThreadPoolExecutor(max_workers=MAX_REPLAYS) as ex:
-        rps = list(ex.map(lambda r: replay(prop, group, feats, r, caps, logdir), to_replay))
+        rps = list(ex.map(lambda r: replay(prop, GROUP_OF.get(r["name"], group), feats, r, caps, logdir), to_replay))
     for r, rp in zip(to_replay, rps):
         r["replay"] = rp
         if rp.get("reproduced"):
